@@ -141,7 +141,7 @@ def extract(src):
         # fail closed: no admissible value for the text range
         str_lo = -1
     text = ("Definition radix : radix_params := {|\n"
-            "  rp_as := addsub;\n  rp_div := div;\n"
+            "  rp_as := addsub;\n  rp_mul := mul;\n  rp_div := div;\n"
             "  rp_str_lo := %s; rp_str_hi := %s;\n"
             "  rp_dig_lo := %s; rp_dig_hi := %s;\n"
             "  rp_guard := %s;\n"
@@ -161,4 +161,4 @@ def extract(src):
         "; ".join("(%d, %d, %d)" % a for a in arms), z(skip), z(ten), z(digit0), z(lettera))
     rep.update({"str_range": [str_lo, str_hi], "dig_range": [dig_lo, dig_hi], "big_len": big_len,
                 "big_cmp": big_cmp, "arms": arms})
-    return ["Base", "AddSub", "Div", "Radix"], text, rep
+    return ["Base", "AddSub", "Mul", "Div", "Radix"], text, rep
